@@ -12,6 +12,7 @@ import (
 	"errors"
 	"fmt"
 	"math/big"
+	"os"
 	"sort"
 	"strings"
 	"sync"
@@ -266,6 +267,9 @@ type fakeQueue struct {
 	// then PushDelayed is part of the property - a task that runs before the store is a no-op and
 	// the certificate is never renewed
 	syncRun func(idx int) bool
+	// slowPush, when set, makes PushDelayed take that long: it widens the window between SetWorkload(&item)
+	// and what GenerateSecret does after registerSecret (SetRoot, the ROOTCA callback)
+	slowPush func(idx int) time.Duration
 }
 
 func (q *fakeQueue) Push(t queue.Task) { q.PushDelayed(t, 0) }
@@ -281,7 +285,14 @@ func (q *fakeQueue) PushDelayed(t queue.Task, d time.Duration) {
 	if run {
 		e.fired = true
 	}
+	var nap time.Duration
+	if q.slowPush != nil {
+		nap = q.slowPush(idx)
+	}
 	q.mu.Unlock()
+	if nap > 0 {
+		time.Sleep(nap)
+	}
 	if run {
 		_ = t()
 		q.mu.Lock()
@@ -314,6 +325,7 @@ type sut struct {
 	expectCfg     []byte
 	expectCfgSet  bool
 	ratio, jitter float64
+	tmpDir        string // removed on close
 }
 
 // bucketable: the nearest-quarter bucket of the scheduled delay does not depend on the jitter draw.
@@ -333,39 +345,58 @@ func newSUT(ratio, jitter float64, realQueue bool) *sut {
 
 // newSUTWith builds the real SecretManagerClient on the given CA client; `ca` is the signing fake CA
 // behind it (directly, or behind the in-process gRPC service of the citadel stream).
-// ownQueue (set by newSUTOwnQueue only): keep the delayed queue NewSecretManagerClient created and started
-// itself (queue.NewDelayed(queue.DelayQueueBuffer(0)) + go queue.Run) instead of the recording one.
-var ownQueue bool
+// sutOpts: everything beyond ratio / jitter that a stream may set on the client under test.
+type sutOpts struct {
+	ownQueue  bool      // keep the delayed queue NewSecretManagerClient created and started itself
+	outputDir string    // security.Options.OutputKeyCertToDir
+	files     [3]string // file-mounted cert chain, key, root (CertChainFilePath, KeyFilePath, RootCertFilePath)
+	caRoot    string    // security.Options.CARootPath (FileRootSystemCACert)
+	keyType   string    // "" = ECDSA P-256 (fast), "rsa" = RSA 2048, "pkcs8" = ECDSA in PKCS#8
+	nilCA     bool      // caClient == nil
+}
+
+// newVariantSUT: the variants of the `cache` stream (8th token of the case header).
+func newVariantSUT(ratio, jitter float64, variant string) *sut {
+	initRoots()
+	ca := &fakeCA{}
+	o := sutOpts{}
+	tmp := ""
+	switch variant {
+	case "outdir":
+		// OUTPUT_CERTS is the directory of the well-known certificate paths: GenerateSecret writes key.pem,
+		// cert-chain.pem and root-cert.pem there and must never serve them back as "file mounted" certificates
+		var err error
+		tmp, err = os.MkdirTemp("", "c18oc")
+		must(err)
+		o.outputDir = tmp
+		o.files = [3]string{tmp + "/cert-chain.pem", tmp + "/key.pem", tmp + "/root-cert.pem"}
+	case "rsa", "pkcs8":
+		o.keyType = variant
+	case "nilca":
+		o.nilCA = true
+	}
+	s := newSUTOpts(ratio, jitter, ca, ca, o)
+	s.tmpDir = tmp
+	return s
+}
 
 func newSUTOwnQueue(ratio, jitter float64) *sut {
 	initRoots()
-	sutCreate.Lock()
-	defer sutCreate.Unlock()
-	ownQueue = true
-	defer func() { ownQueue = false }()
 	ca := &fakeCA{}
-	return newSUTWith(ratio, jitter, ca, ca)
+	return newSUTOpts(ratio, jitter, ca, ca, sutOpts{ownQueue: true})
 }
-
-var sutCreate sync.Mutex
-
-// filePaths (set by newFileSUT only): file-mounted cert chain, key, root.
-var filePaths [3]string
-
-// outputDir (set by newSUTOutputDir only): security.Options.OutputKeyCertToDir.
-var outputDir string
 
 func newSUTOutputDir(dir string) *sut {
 	initRoots()
-	sutCreate.Lock()
-	defer sutCreate.Unlock()
-	outputDir = dir
-	defer func() { outputDir = "" }()
 	ca := &fakeCA{}
-	return newSUTWith(0.5, 0, ca, ca)
+	return newSUTOpts(0.5, 0, ca, ca, sutOpts{outputDir: dir})
 }
 
 func newSUTWith(ratio, jitter float64, ca *fakeCA, client security.Client) *sut {
+	return newSUTOpts(ratio, jitter, ca, client, sutOpts{})
+}
+
+func newSUTOpts(ratio, jitter float64, ca *fakeCA, client security.Client, o sutOpts) *sut {
 	s := &sut{ca: ca, q: &fakeQueue{}, ratio: ratio, jitter: jitter}
 	opts := &security.Options{
 		ECCSigAlg:                            string(pkiutil.EcdsaSigAlg),
@@ -375,15 +406,26 @@ func newSUTWith(ratio, jitter float64, ca *fakeCA, client security.Client) *sut 
 		SecretTTL:                            24 * time.Hour,
 		SecretRotationGracePeriodRatio:       ratio,
 		SecretRotationGracePeriodRatioJitter: jitter,
-		OutputKeyCertToDir:                   outputDir,
-		CertChainFilePath:                    filePaths[0],
-		KeyFilePath:                          filePaths[1],
-		RootCertFilePath:                     filePaths[2],
+		OutputKeyCertToDir:                   o.outputDir,
+		CertChainFilePath:                    o.files[0],
+		KeyFilePath:                          o.files[1],
+		RootCertFilePath:                     o.files[2],
+		CARootPath:                           o.caRoot,
+	}
+	switch o.keyType {
+	case "rsa":
+		opts.ECCSigAlg = ""
+		opts.WorkloadRSAKeySize = 2048
+	case "pkcs8":
+		opts.Pkcs8Keys = true
+	}
+	if o.nilCA {
+		client = nil
 	}
 	sc, err := nacache.NewSecretManagerClient(client, opts)
 	must(err)
 	s.q.sc = sc
-	if !ownQueue {
+	if !o.ownQueue {
 		nacache.VerifSetQueue(sc, s.q)
 	}
 	s.sc = sc
@@ -456,6 +498,9 @@ func (s *sut) updateBundle(b []byte) {
 }
 
 func (s *sut) close() {
+	if s.tmpDir != "" {
+		defer os.RemoveAll(s.tmpDir)
+	}
 	s.sc.Close()
 	if s.cit != nil {
 		s.cit.srv.Stop()
